@@ -242,6 +242,9 @@ fn recipe(kind: &str, i: usize) -> (usize, bool, usize) {
         "mixed" => {
             if i % 64 == 63 {
                 (81920, i % 128 == 63, 0)
+            } else if i % 64 == 31 {
+                // just below 64 KiB: the largest non-LOS size class of the free-list allocator
+                (60000, i % 128 == 31, 0)
             } else {
                 ([40, 40, 264, 40, 2048, 40, 264, 40][i % 8], i % 8 == 2 || i % 16 == 4, 0)
             }
@@ -327,6 +330,11 @@ fn cycle(w: &mut World, fl: &Floors, filler: &mut Filler, kind: &str) -> Result<
         for _ in 0..2 {
             w.nonsafepoint_request(0, (filler.heap / 2) & !4095)?;
         }
+    }
+    // in some kinds the kept objects survive one collection before they are dropped (what dies in
+    // the closing collection is then mature / has been swept around once)
+    if kind == "mixed" || kind == "span" {
+        w.gc(0, true)?;
     }
     let peak = Snap::take(w, fl);
     if kind == "twomut" {
